@@ -2,7 +2,8 @@
    re-parenting, flag change with full rebuild), ResetQuota. *)
 From Coq Require Import List ZArith Bool Lia.
 From Verif Require Import Lib.Vec2 C01.Model C01.Spec C01.Proofs_Base C01.Proofs_Walk C01.Proofs_Delta
-  C01.Proofs_PodList C01.Proofs_Sections C01.Proofs_Shape C01.Proofs_CWalk C01.Proofs_Detach.
+  C01.Proofs_PodList C01.Proofs_Sections C01.Proofs_Shape C01.Proofs_CWalk C01.Proofs_Detach
+  C01.Proofs_SetMaxMin C01.Proofs_Mid C01.Proofs_Reset.
 Import ListNotations.
 Open Scope Z_scope.
 
@@ -57,7 +58,7 @@ Qed.
 Lemma delete_quota_inv s n : Inv s -> wf_op s (OpQuotaDelete n) = true -> Inv (delete_quota s n).
 Proof.
   intros HI Hwf. cbn [wf_op] in Hwf. apply andb_prop in Hwf. destruct Hwf as [_ Hleaf].
-  apply negb_true_iff, has_children_false in Hleaf.
+  apply negb_true_iff in Hleaf. pose proof (proj1 (has_children_false _ _) Hleaf) as Hleaf'. clear Hleaf. rename Hleaf' into Hleaf.
   destruct (find (st_sh s) n) as [q|] eqn:Hf; [|unfold delete_quota; rewrite Hf; exact HI].
   destruct (delete_quota_comp s n q Hf) as (Hsh & HR & HU & HP).
   destruct (inv_qagg _ HI) as (Hpr & Hpu & HA & HN & HB & HUo & HUNo).
@@ -90,4 +91,301 @@ Proof.
     + rewrite <- Hsh in U1. apply U1. exact Hq0.
     + rewrite (HPo q0 Hq0). exact Hpo.
   - intros q0 Hq0. rewrite (HPo q0 Hq0). apply (inv_quiet _ HI). apply Hin1. exact Hq0.
+Qed.
+
+(* ---------- appending a blank entry ---------- *)
+
+Definition blank (sp : qshape) : qshape := mkQ (q_name sp) (q_parent sp) (q_isparent sp) (q_lend sp) vzero vzero.
+
+Lemma sumc_snoc sh b g m : sumc (sh ++ [b]) g m = vadd (sumc sh g m) (if q_parent b =? m then g b else vzero).
+Proof.
+  rewrite sumc_app. f_equal. unfold sumc, children. cbn [filter].
+  destruct (q_parent b =? m); cbn [map vsum fold_right]; [apply vadd_0_r | reflexivity].
+Qed.
+
+Section AppendBlank.
+  Variables (sh : list qshape) (b : qshape) (R : Z -> racc) (U : Z -> uacc).
+  Hypothesis Hnew : ~ In (q_name b) (names sh).
+  Hypothesis Hbmax : q_max b = vzero.
+
+  Let n := q_name b.
+  Let sh2 := sh ++ [b].
+  Let R2 := fupd R n r0.
+  Let U2 := fupd U n u0.
+
+  Lemma append_blank_old x : In x sh -> q_name x <> n.
+  Proof. intros Hx E. apply Hnew. fold n. rewrite <- E. apply in_map. exact Hx. Qed.
+
+  Lemma append_blank_sums m :
+    sumc sh2 (limR R2) m = sumc sh (limR R) m /\ sumc sh2 (npR R2) m = sumc sh (npR R) m /\
+    sumc sh2 (usedU U2) m = sumc sh (usedU U) m /\ sumc sh2 (unpU U2) m = sumc sh (unpU U) m.
+  Proof.
+    unfold sh2. rewrite !sumc_snoc.
+    assert (E1 : limR R2 b = vzero).
+    { unfold limR, R2, lim. fold n. rewrite fupd_same, Hbmax. reflexivity. }
+    assert (E2 : npR R2 b = vzero) by (unfold npR, R2; fold n; rewrite fupd_same; reflexivity).
+    assert (E3 : usedU U2 b = vzero) by (unfold usedU, U2; fold n; rewrite fupd_same; reflexivity).
+    assert (E4 : unpU U2 b = vzero) by (unfold unpU, U2; fold n; rewrite fupd_same; reflexivity).
+    rewrite E1, E2, E3, E4.
+    assert (Hz : forall v, vadd v (if q_parent b =? m then vzero else vzero) = v)
+      by (intros v; destruct (q_parent b =? m); apply vadd_0_r).
+    rewrite !Hz.
+    refine (conj _ (conj _ (conj _ _))); apply sumc_ext; intros c Hc _;
+      unfold limR, npR, usedU, unpU, R2, U2; rewrite fupd_other by (apply append_blank_old; exact Hc); reflexivity.
+  Qed.
+
+  Lemma append_blank_ok x : In x sh ->
+    (okA sh R x -> okA sh2 R2 x) /\ (okN sh R x -> okN sh2 R2 x) /\ (okB R x -> okB R2 x) /\
+    (okU sh U x -> okU sh2 U2 x) /\ (okUN sh U x -> okUN sh2 U2 x).
+  Proof.
+    intros Hx. pose proof (append_blank_old x Hx) as Hne.
+    destruct (append_blank_sums (q_name x)) as (E1 & E2 & E3 & E4).
+    unfold okA, okN, okB, okU, okUN. rewrite E1, E2, E3, E4.
+    unfold R2, U2. rewrite !fupd_other by exact Hne. auto.
+  Qed.
+End AppendBlank.
+
+Lemma cnt_all_snoc sh b P x : cnt x (all_ids (sh ++ [b]) P) = (cnt x (all_ids sh P) + cnt x (ids (P (q_name b))))%nat.
+Proof. unfold all_ids. rewrite flat_map_app, cnt_app. cbn [flat_map]. rewrite app_nil_r. reflexivity. Qed.
+
+Lemma freq_blank b : q_min b = vzero -> freq b vzero = vzero.
+Proof. intros H. unfold freq. rewrite H. destruct (q_lend b); reflexivity. Qed.
+
+(* ---------- creating a quota ---------- *)
+
+Lemma parent_ok_cases sh p : parent_ok sh p = true ->
+  p = 0 \/ (3 <= p /\ exists pq, find sh p = Some pq /\ q_isparent pq = true).
+Proof.
+  unfold parent_ok. intros H. apply orb_prop in H. destruct H as [E|E]; [left; apply Z.eqb_eq; exact E|].
+  right. destruct (find sh p) as [pq|]; [|discriminate].
+  apply andb_prop in E. destruct E as [E1 E2]. apply Z.leb_le in E1. eauto.
+Qed.
+
+Lemma add_blank_new_inv s sp :
+  Inv s -> ~ In (q_name sp) (names (st_sh s)) -> 3 <= q_name sp ->
+  parent_ok (st_sh s) (q_parent sp) = true -> q_parent sp <> q_name sp ->
+  Inv (add_blank s sp []).
+Proof.
+  intros HI Hnew H3 Hpok Hpne.
+  destruct HI as [Hshape Hids Hq Hquiet].
+  unfold add_blank. change (mkQ (q_name sp) (q_parent sp) (q_isparent sp) (q_lend sp) vzero vzero) with (blank sp).
+  remember (blank sp) as b eqn:Eb. remember (q_name sp) as n eqn:En.
+  assert (Hbn : q_name b = n) by (rewrite Eb, En; reflexivity).
+  assert (Hbp : q_parent b = q_parent sp) by (rewrite Eb; reflexivity).
+  assert (Hbmax : q_max b = vzero) by (rewrite Eb; reflexivity).
+  assert (Hbmin : q_min b = vzero) by (rewrite Eb; reflexivity).
+  clear Eb.
+  assert (Hnewb : ~ In (q_name b) (names (st_sh s))) by (rewrite Hbn; exact Hnew).
+  assert (Hnochild : forall c, In c (st_sh s) -> q_parent c <> n).
+  { intros c Hc E. destruct (so_par _ Hshape c Hc) as [H0|[_ [pq [Hfp _]]]]; [lia|].
+    apply Hnew. rewrite <- E. eapply find_some_in_names; eauto. }
+  assert (Hshape2 : ShapeOk (st_sh s ++ [b])).
+  { apply shape_app; auto; try (rewrite ?Hbmax, ?Hbmin; apply vnonneg_zero); rewrite ?Hbn, ?Hbp; auto. lia. }
+  pose proof (append_blank_ok (st_sh s) b (st_r s) (st_u s) Hnewb Hbmax) as Hold. cbn zeta in Hold. rewrite Hbn in Hold.
+  pose proof (append_blank_sums (st_sh s) b (st_r s) (st_u s) Hnewb Hbmax) as Hsums. cbn zeta in Hsums. rewrite Hbn in Hsums.
+  assert (Hoth : forall x, In x (st_sh s) -> q_name x <> n).
+  { intros x Hx E. apply Hnew. rewrite <- E. apply in_map. exact Hx. }
+  assert (HPo : forall x, In x (st_sh s) -> fupd (st_p s) n [] (q_name x) = st_p s (q_name x))
+    by (intros x Hx; apply fupd_other; apply Hoth; exact Hx).
+  assert (HRo : forall x, In x (st_sh s) -> fupd (st_r s) n r0 (q_name x) = st_r s (q_name x))
+    by (intros x Hx; apply fupd_other; apply Hoth; exact Hx).
+  assert (HUo : forall x, In x (st_sh s) -> fupd (st_u s) n u0 (q_name x) = st_u s (q_name x))
+    by (intros x Hx; apply fupd_other; apply Hoth; exact Hx).
+  constructor; cbn [st_sh st_r st_u st_p].
+  - exact Hshape2.
+  - rewrite all_pod_ids_eq. cbn [st_sh st_p]. apply nodup_cnt. intros x. rewrite cnt_all_snoc, Hbn, fupd_same.
+    rewrite (all_ids_ext (st_sh s) (st_p s) (fupd (st_p s) n [])) by (intros y Hy; rewrite (HPo y Hy); reflexivity).
+    pose proof (proj1 (nodup_cnt _) Hids x) as Hle. rewrite all_pod_ids_eq in Hle. cbn. lia.
+  - intros x Hx. apply in_app_or in Hx. destruct Hx as [Hx|[<-|[]]].
+    + destruct (Hq x Hx) as [HA HN HB HU HUN HS Hpr Hpu Hpo].
+      destruct (Hold x Hx) as (O1 & O2 & O3 & O4 & O5).
+      constructor; cbn [st_sh st_r st_u st_p]; auto.
+      * unfold okS in *. cbn [st_r st_u st_p]. rewrite (HPo x Hx), (HRo x Hx), (HUo x Hx). exact HS.
+      * rewrite (HRo x Hx). exact Hpr.
+      * rewrite (HUo x Hx). exact Hpu.
+      * rewrite (HPo x Hx). exact Hpo.
+    + destruct (Hsums n) as (E1 & E2 & E3 & E4).
+      rewrite (sumc_no_children _ _ _ Hnochild) in E1. rewrite (sumc_no_children _ _ _ Hnochild) in E2.
+      rewrite (sumc_no_children _ _ _ Hnochild) in E3. rewrite (sumc_no_children _ _ _ Hnochild) in E4.
+      constructor; cbn [st_sh st_r st_u st_p]; rewrite ?Hbn.
+      * unfold okA. rewrite Hbn, E1, fupd_same. reflexivity.
+      * unfold okN. rewrite Hbn, E2, fupd_same. reflexivity.
+      * unfold okB. rewrite Hbn, fupd_same. cbn [r_req r_creq r0]. symmetry. apply freq_blank. exact Hbmin.
+      * unfold okU. rewrite Hbn, E3, fupd_same. reflexivity.
+      * unfold okUN. rewrite Hbn, E4, fupd_same. reflexivity.
+      * unfold okS. cbn [st_r st_u st_p]. rewrite !fupd_same. cbn. auto.
+      * rewrite fupd_same. reflexivity.
+      * rewrite fupd_same. reflexivity.
+      * rewrite fupd_same. constructor.
+  - intros x Hx. apply in_app_or in Hx. destruct Hx as [Hx|[<-|[]]].
+    + rewrite (HPo x Hx). apply Hquiet. exact Hx.
+    + rewrite Hbn, fupd_same. reflexivity.
+Qed.
+
+(* ---------- max / min changes on a consistent state ---------- *)
+
+Lemma zero_not_name sh : ShapeOk sh -> ~ In 0 (names sh).
+Proof.
+  intros H Hin. apply in_map_iff in Hin. destruct Hin as [q [E Hq]].
+  apply (shape_nonzero _ H q Hq E).
+Qed.
+
+Lemma do_update_max_inv s n q m : Inv s -> find (st_sh s) n = Some q -> vnonneg m ->
+  Inv (do_update_max s n m) /\ find (st_sh (do_update_max s n m)) n = Some (with_max q m).
+Proof.
+  intros HI Hf Hm. pose proof (inv_mid s 0 HI) as HM.
+  destruct (mid_chain s 0 n q HM Hf) as (rest & Hch & _ & _).
+  destruct (do_update_max_mid s 0 n q rest m HM Hf Hch (fun H => reaches_nonzero _ _ _ Hch (or_intror H)) Hm)
+    as (M & Hsh & _).
+  split.
+  - apply (mid_inv _ 0 M). apply zero_not_name. apply (mid_shape _ _ M).
+  - rewrite Hsh. apply (upd_const_find_same (st_sh s) n q (with_max q m) Hf eq_refl eq_refl).
+Qed.
+
+Lemma do_update_min_inv s n q m : Inv s -> find (st_sh s) n = Some q -> vnonneg m ->
+  Inv (do_update_min s n m) /\ find (st_sh (do_update_min s n m)) n = Some (with_min q m).
+Proof.
+  intros HI Hf Hm. pose proof (inv_mid s 0 HI) as HM.
+  destruct (mid_chain s 0 n q HM Hf) as (rest & Hch & _ & _).
+  destruct (do_update_min_mid s 0 n q rest m HM Hf Hch (fun H => reaches_nonzero _ _ _ Hch (or_intror H)) Hm)
+    as (M & Hsh & _).
+  split.
+  - apply (mid_inv _ 0 M). apply zero_not_name. apply (mid_shape _ _ M).
+  - rewrite Hsh. apply (upd_const_find_same (st_sh s) n q (with_min q m) Hf eq_refl eq_refl).
+Qed.
+
+Lemma update_internal_old_inv s sp loc :
+  Inv s -> find (st_sh s) (q_name sp) = Some loc -> vnonneg (q_max sp) -> vnonneg (q_min sp) ->
+  Inv (update_internal s sp (Some loc)).
+Proof.
+  intros HI Hf Hmax Hmin. unfold update_internal.
+  destruct (negb (veqb (q_max sp) (q_max loc))).
+  - destruct (do_update_max_inv s (q_name sp) loc (q_max sp) HI Hf Hmax) as [HI2 Hf2].
+    destruct (negb (veqb (q_min sp) (q_min loc))); [|exact HI2].
+    apply (do_update_min_inv _ _ _ _ HI2 Hf2 Hmin).
+  - destruct (negb (veqb (q_min sp) (q_min loc))); [|exact HI].
+    apply (do_update_min_inv _ _ _ _ HI Hf Hmin).
+Qed.
+
+Lemma update_internal_new_inv s sp :
+  Inv s -> find (st_sh s) (q_name sp) = None -> 3 <= q_name sp ->
+  parent_ok (st_sh s) (q_parent sp) = true -> q_parent sp <> q_name sp ->
+  vnonneg (q_max sp) -> vnonneg (q_min sp) ->
+  Inv (update_internal s sp None).
+Proof.
+  intros HI Hf H3 Hpok Hpne Hmax Hmin. unfold update_internal.
+  apply find_none in Hf.
+  pose proof (add_blank_new_inv s sp HI Hf H3 Hpok Hpne) as HI1.
+  assert (Hf1 : find (st_sh (add_blank s sp [])) (q_name sp) = Some (blank sp)).
+  { unfold add_blank. cbn [st_sh]. apply (find_snoc_new (st_sh s) (blank sp)). exact Hf. }
+  destruct (do_update_max_inv _ _ _ (q_max sp) HI1 Hf1 Hmax) as [HI2 Hf2].
+  apply (do_update_min_inv _ _ _ _ HI2 Hf2 Hmin).
+Qed.
+
+(* ---------- ResetQuota and the flag change (full rebuild) ---------- *)
+
+Lemma leaf_figures s q : Inv s -> In q (st_sh s) -> (forall c, In c (st_sh s) -> q_parent c <> q_name q) ->
+  let r := st_r s (q_name q) in let u := st_u s (q_name q) in
+  r_creq r = r_sreq r /\ r_np r = r_snp r /\ u_used u = u_sused u /\ u_np u = u_snp u.
+Proof.
+  intros HI Hq Hnc. destruct (inv_q _ HI q Hq) as [HA HN _ HU HUN _ _ _ _].
+  unfold okA, okN, okU, okUN in *.
+  rewrite (sumc_no_children _ _ _ Hnc) in HA. rewrite (sumc_no_children _ _ _ Hnc) in HN.
+  rewrite (sumc_no_children _ _ _ Hnc) in HU. rewrite (sumc_no_children _ _ _ Hnc) in HUN.
+  rewrite vadd_0_r in HA, HN, HU, HUN. cbn zeta. auto.
+Qed.
+
+Lemma not_parent_no_children sh q : ShapeOk sh -> In q sh -> q_isparent q = false ->
+  forall c, In c sh -> q_parent c <> q_name q.
+Proof.
+  intros Hshape Hq Hisp c Hc E. destruct (so_par _ Hshape c Hc) as [H0|[_ [pq [Hfp Hip]]]].
+  - apply (shape_nonzero _ Hshape q Hq). congruence.
+  - rewrite E in Hfp. rewrite (in_find _ _ (so_nodup _ Hshape) Hq) in Hfp. injection Hfp as <-. congruence.
+Qed.
+
+Lemma inv_prereset s : Inv s -> SpecOk (st_sh s) -> PreReset s.
+Proof.
+  intros HI Hspec. pose proof (inv_shape _ HI) as Hshape.
+  constructor; auto.
+  - apply (inv_ids _ HI).
+  - apply (inv_quiet _ HI).
+  - intros q Hq. apply (inv_q _ HI q Hq).
+  - intros q Hq. apply (inv_q _ HI q Hq).
+  - intros q Hq. apply (inv_q _ HI q Hq).
+  - intros q Hq. apply (inv_q _ HI q Hq).
+  - intros q Hq _. destruct (inv_q _ HI q Hq); auto.
+  - intros q Hq _. destruct (inv_q _ HI q Hq) as [_ _ _ _ _ HS _ _ _]. destruct HS as (S1 & S2 & S3 & S4).
+    unfold saved_of, selfs. cbn [snd]. destruct (q_isparent q) eqn:E; [congruence|].
+    destruct (leaf_figures s q HI Hq (not_parent_no_children _ q Hshape Hq E)) as (L1 & L2 & L3 & L4).
+    congruence.
+Qed.
+
+Lemma reset_op_inv s : Inv s -> SpecOk (st_sh s) -> Inv (reset s) /\ st_sh (reset s) = st_sh s.
+Proof. intros HI Hspec. apply reset_inv. apply inv_prereset; assumption. Qed.
+
+Lemma upd_sh_const_eq sh n f q : NoDup (names sh) -> find sh n = Some q ->
+  upd_sh sh n f = upd_sh sh n (fun _ => f q).
+Proof.
+  intros Hnd Hf. unfold upd_sh. apply map_ext_in. intros c Hc.
+  destruct (q_name c =? n) eqn:E; [|reflexivity]. apply Z.eqb_eq in E.
+  assert (c = q) by (rewrite <- E in Hf; rewrite (in_find _ _ Hnd Hc) in Hf; congruence). subst c. reflexivity.
+Qed.
+
+Lemma special_ge3 n : 3 <= n -> special n = false.
+Proof. intros H. unfold special. apply orb_false_intro; apply Z.eqb_neq; lia. Qed.
+
+Lemma flag_change_inv s sp loc :
+  Inv s -> SpecOk (st_sh s) -> find (st_sh s) (q_name sp) = Some loc -> q_parent loc = q_parent sp ->
+  3 <= q_name sp -> vnonneg (q_max sp) -> vnonneg (q_min sp) ->
+  (q_isparent sp = true \/ forall c, In c (st_sh s) -> q_parent c <> q_name sp) ->
+  let s' := reset (set_sh s (upd_sh (st_sh s) (q_name sp) (from_remote sp))) in
+  Inv s' /\ st_sh s' = upd_sh (st_sh s) (q_name sp) (fun _ => from_remote sp loc).
+Proof.
+  intros HI Hspec Hf Hpar H3 Hmax Hmin Hisp s'.
+  pose proof (inv_shape _ HI) as Hshape. pose proof (so_nodup _ Hshape) as Hnd.
+  set (n := q_name sp) in *. set (q' := from_remote sp loc).
+  assert (Hq'n : q_name q' = q_name loc) by reflexivity.
+  assert (Hq'p : q_parent q' = q_parent loc) by (cbn; congruence).
+  assert (Hlocn : q_name loc = n) by (eapply find_name; eauto).
+  assert (Hlocin : In loc (st_sh s)) by (eapply find_in; eauto).
+  unfold s'. rewrite (upd_sh_const_eq (st_sh s) n (from_remote sp) loc Hnd Hf). fold q'.
+  set (sh' := upd_sh (st_sh s) n (fun _ => q')).
+  assert (Hshape' : ShapeOk sh').
+  { apply (shape_upd (st_sh s) n loc q' Hshape Hf Hq'n Hq'p); auto. }
+  assert (Hin' : forall x, In x sh' -> (x = q' /\ q_name x = n) \/ (In x (st_sh s) /\ q_name x <> n)).
+  { intros x Hx. apply (setshape_in (st_sh s) n q') in Hx. destruct Hx as [c [Hc ->]].
+    destruct (q_name c =? n) eqn:E; [left; split; [reflexivity | cbn; exact Hlocn] | right; split; [exact Hc | apply Z.eqb_neq; exact E]]. }
+  assert (Hnm : forall x, In x sh' -> exists c, In c (st_sh s) /\ q_name c = q_name x).
+  { intros x Hx. destruct (Hin' x Hx) as [[-> E]|[Hc _]]; [exists loc; split; [exact Hlocin | cbn; reflexivity] | exists x; auto]. }
+  assert (HPR : PreReset (set_sh s sh')).
+  { constructor; cbn [st_sh st_r st_u st_p set_sh].
+    - exact Hshape'.
+    - intros x Hx Hs. destruct (Hin' x Hx) as [[_ E]|[Hc _]]; [rewrite E, (special_ge3 _ H3) in Hs; discriminate | apply Hspec; assumption].
+    - change (NoDup (all_ids sh' (st_p s))). rewrite all_ids_by_names. unfold sh'.
+      rewrite (upd_const_names (st_sh s) n loc q' Hnd Hf Hq'n), <- all_ids_by_names. apply (inv_ids _ HI).
+    - intros x Hx. destruct (Hnm x Hx) as [c [Hc E]]. rewrite <- E. apply (inv_quiet _ HI). exact Hc.
+    - intros x Hx. destruct (Hnm x Hx) as [c [Hc E]]. rewrite <- E. apply (inv_q _ HI c Hc).
+    - intros x Hx. destruct (Hnm x Hx) as [c [Hc E]]. rewrite <- E. apply (inv_q _ HI c Hc).
+    - intros x Hx. destruct (Hnm x Hx) as [c [Hc E]]. rewrite <- E. apply (inv_q _ HI c Hc).
+    - intros x Hx. destruct (Hnm x Hx) as [c [Hc E]]. rewrite <- E. apply (inv_q _ HI c Hc).
+    - intros x Hx Hs. destruct (Hin' x Hx) as [[_ E]|[Hc Hne]]; [rewrite E, (special_ge3 _ H3) in Hs; discriminate|].
+      destruct (inv_q _ HI x Hc) as [HA HN HB HU HUN _ _ _ _].
+      assert (Hpn : (q_parent loc =? q_name x) = false).
+      { apply Z.eqb_neq. intros E. destruct (so_par _ Hshape loc Hlocin) as [H0|[H3' _]].
+        - apply (shape_nonzero _ Hshape x Hc). congruence.
+        - rewrite E in H3'. rewrite (special_ge3 _ H3') in Hs. discriminate. }
+      unfold okA, okN, okU, okUN, sh' in *.
+      rewrite !(sumc_upd_const (st_sh s) n loc q' Hnd Hf Hq'n Hq'p), Hpn. auto.
+    - intros x Hx Hs. unfold saved_of, selfs. cbn [snd st_r st_u st_p set_sh].
+      destruct (Hin' x Hx) as [[-> E]|[Hc Hne]].
+      + destruct (inv_q _ HI loc Hlocin) as [_ _ _ _ _ HS _ _ _]. destruct HS as (S1 & S2 & S3 & S4).
+        rewrite Hq'n, Hlocn in *. cbn [q' from_remote q_isparent].
+        destruct (q_isparent sp) eqn:Ei; [congruence|].
+        destruct Hisp as [Hisp|Hisp]; [congruence|].
+        assert (Hnc : forall c, In c (st_sh s) -> q_parent c <> q_name loc) by (rewrite Hlocn; exact Hisp).
+        destruct (leaf_figures s loc HI Hlocin Hnc) as (L1 & L2 & L3 & L4). rewrite Hlocn in *. congruence.
+      + destruct (inv_q _ HI x Hc) as [_ _ _ _ _ HS _ _ _]. destruct HS as (S1 & S2 & S3 & S4).
+        destruct (q_isparent x) eqn:Ei; [congruence|].
+        destruct (leaf_figures s x HI Hc (not_parent_no_children _ x Hshape Hc Ei)) as (L1 & L2 & L3 & L4). congruence. }
+  destruct (reset_inv _ HPR) as [HI' Hsh']. split; [exact HI' | exact Hsh'].
 Qed.
